@@ -541,3 +541,84 @@ DOC_FRAME_3 = '''package p;
     @X C = "c",
 }
 '''
+
+
+# --------------------------------------------------------------------------------------
+# symbol queries (C15 / C16 / C17): inputs only - filters, predicate descriptors, positions
+# --------------------------------------------------------------------------------------
+CLASSES = ["pkg", "imp", "item", "method", "arg", "const", "field", "elem", "type"]
+
+
+def names_in(toks):
+    """Candidate names for 'name equals N' predicates: identifiers and dotted names written in the document."""
+    out, cur = [], []
+    for k, t in toks:
+        if k in ("IDENT", "LIST", "MAP", "STRING", "PRIMITIVE", "VOID", "CHAR_SEQUENCE"):
+            if cur and cur[-1] == ".":
+                cur.append(t)
+            else:
+                if cur:
+                    out.append("".join(cur))
+                cur = [t]
+            out.append(t)
+        elif k == "." and cur:
+            cur.append(".")
+        else:
+            if cur:
+                out.append("".join(cur))
+            cur = []
+    if cur:
+        out.append("".join(cur))
+    out += ["Array", "nope"]
+    seen, res = set(), []
+    for n in out:
+        if n not in seen and not n.endswith("."):
+            seen.add(n)
+            res.append(n)
+    return res
+
+
+def query_ops(fid, text, toks, what=("walk", "filter", "find", "lookup", "walkers", "key"), max_nth=60, stage="validated"):
+    ops = []
+    base = {"i": 1, "id": fid, "stage": stage}
+    for filt in ("all", "elems", "items"):
+        if "walk" in what:
+            ops.append(dict(base, op="walk", filter=filt))
+        preds = []
+        if "filter" in what or "find" in what:
+            nmax = {"all": max_nth, "elems": 8, "items": 3}[filt]
+            preds += [{"kind": "nth", "k": k} for k in range(1, nmax + 1)]
+            preds += [{"kind": "class", "c": c} for c in CLASSES]
+            preds += [{"kind": "name", "n": n} for n in names_in(toks)]
+            preds += [{"kind": "all"}, {"kind": "none"}]
+        if "find" in what and preds:
+            ops.append(dict(base, op="finds", filter=filt, preds=preds))
+        if "filter" in what and preds:
+            ops.append(dict(base, op="filters", filter=filt, preds=preds))
+        if "lookup" in what:
+            pos = []
+            lines = text.split("\n")
+            for ln, line in enumerate(lines, 1):
+                for col in range(1, len(line) + 3):
+                    pos.append([ln, col])
+            pos += [[len(lines) + 1, 1], [0, 0], [1, 0]]
+            ops.append(dict(base, op="lookups", filter=filt, positions=pos))
+    if "walkers" in what:
+        ops += [dict(base, op="walktypes"), dict(base, op="walkmethods"), dict(base, op="walkargs")]
+    if "key" in what:
+        ops.append(dict(base, op="key"))
+    return ops
+
+
+def symbol_scenario(s, src, what, layout="default", rng=None):
+    ops = [{"op": "new", "i": 1}]
+    texts = {}
+    for f in s["files"]:
+        pieces = R.default_layout(f["toks"]) if layout == "default" else R.random_layout(f["toks"], rng)
+        texts[f["id"]] = R.text_of(pieces)
+        ops.append({"op": "add", "i": 1, "id": f["id"], "text": texts[f["id"]]})
+    ops.append({"op": "validate", "i": 1})
+    for f in s["files"]:
+        if f["id"] in s.get("query", [s.get("main", "a")]):
+            ops += query_ops(f["id"], texts[f["id"]], f["toks"], what)
+    return {"sid": "", "src": src, "ops": ops}
